@@ -68,7 +68,7 @@ def validate(number):
     number = compact(number)
     if not isdigits(number[:9]) or int(number[:9]) <= 0:
         raise InvalidFormat()
-    if not isdigits(number[10:]) or int(number[10:]) <= 0:
+    if not isdigits(number[10:]) or not number[10:].strip('0'):
         raise InvalidFormat()
     if len(number) != 12:
         raise InvalidLength()
